@@ -46,7 +46,7 @@ func runC01(w *World, c *Check) {
 
 	// ---- rule 1: APReq.Verify -------------------------------------------------
 	ct := P("time.(Time).Add(recv.Authenticator.CTime, ", re(`[^,]*recv\.Authenticator\.Cusec[^,]*`), ")")
-	decTkt := P("messages.(*Ticket).DecryptEncPart(recv.Ticket, @0, ", re(`φ\(recv\.Ticket\.SName\|@3\)`), ")")
+	decTkt := P("messages.(*Ticket).DecryptEncPart(recv.Ticket, @0, ", re(`(?:φ\(recv\.Ticket\.SName\|@3\)|@3)`), ")") // the override may be passed straight through: DecryptEncPart applies the same nil default (C01.keysel)
 	valid := P("messages.(*Ticket).Valid(recv.Ticket, @1)")
 	decAuth := P("messages.(*APReq).DecryptAuthenticator(recv, " + tktDEP + ".Key)")
 	verifyFA, vg := checkGuards(w, c, "C01.verify", "messages.(*APReq).Verify", BoolErrSuccess(0, 1), []GuardSpec{
